@@ -62,6 +62,52 @@ pub mod number {
 #[cfg(feature = "serde")]
 mod serde;
 
+/// Verification hooks, only compiled with `--cfg json_syntax_verif`.
+///
+/// An event sink local to the current thread: nothing is recorded unless
+/// [`verif::start`] has been called.
+#[cfg(json_syntax_verif)]
+pub mod verif {
+	use std::cell::RefCell;
+
+	#[derive(Clone, Copy, Debug, PartialEq, Eq)]
+	pub enum Event {
+		/// A code-map fragment has been reserved.
+		BeginFragment { index: usize, position: usize },
+		/// A code-map fragment has been closed.
+		EndFragment {
+			index: usize,
+			position: usize,
+			volume: usize,
+		},
+		/// A marker inserted by the caller (e.g. by its input iterator).
+		Mark(i64, usize),
+	}
+
+	thread_local! {
+		static SINK: RefCell<Option<Vec<Event>>> = RefCell::new(None);
+	}
+
+	/// Starts recording events on this thread.
+	pub fn start() {
+		SINK.with(|s| *s.borrow_mut() = Some(Vec::new()))
+	}
+
+	/// Stops recording and returns the recorded events.
+	pub fn take() -> Vec<Event> {
+		SINK.with(|s| s.borrow_mut().take().unwrap_or_default())
+	}
+
+	/// Records an event (no-op unless recording).
+	pub fn emit(event: Event) {
+		SINK.with(|s| {
+			if let Some(events) = s.borrow_mut().as_mut() {
+				events.push(event)
+			}
+		})
+	}
+}
+
 #[cfg(feature = "serde")]
 pub use self::serde::*;
 
